@@ -27,6 +27,39 @@ def utf8(h):
     return unhx(h).decode("utf-8")
 
 
+_WORDSET = None
+
+
+def leaked_phrase(err_bytes):
+    """a failing `new` prints no phrase — not on standard output (render) and not in the error text either: returns the
+    first run of >= 6 consecutive word-list words found on stderr, or None"""
+    global _WORDSET
+    if _WORDSET is None:
+        from vlib import bip39
+        _WORDSET = set(bip39.words())
+    import re
+    text = err_bytes.decode("utf-8", "replace") if isinstance(err_bytes, (bytes, bytearray)) else (err_bytes or "")
+    toks = re.split(r"[^a-z]+", text)
+    run = []
+    for t in toks:
+        if t in _WORDSET:
+            run.append(t)
+            if len(run) >= 6:
+                return " ".join(run)
+        else:
+            run = []
+    return None
+
+
+def render_new(kind, out, err):
+    r = render(kind, out)
+    if r == "err":
+        leak = leaked_phrase(err or "")
+        if leak:
+            return "err-with-phrase-on-stderr " + hx(leak.encode())
+    return r
+
+
 def account_args(parts, meta, env):
     """parts: mnemonic pw selector (hex) -> argv fragment; meta['via'] chooses flag or environment per option"""
     via = meta.get("via", {})
@@ -218,7 +251,7 @@ def run_cli(case):
             with open(log) as f:
                 meta["requests"] = [int(x) for x in f.read().split()]
             os.unlink(log)
-        return render(kind, out)
+        return render_new(kind, out, err)
     if op == "cli.new_vanity":
         argv = ["new", "--length=" + utf8(parts[1]), "--vanity-prefix=" + utf8(parts[2]), "-j", str(meta.get("threads", 0))]
         if utf8(parts[3]) != "":
@@ -235,7 +268,7 @@ def run_cli(case):
             with open(log) as f:
                 meta["requests"] = [int(x) for x in f.read().split()]
             os.unlink(log)
-        return render(kind, out)
+        return render_new(kind, out, err)
     if op == "cli.prefix_parse":
         # does the value parser accept the prefix?  With a failing entropy source and -j 0 an accepted prefix
         # leads to a run-time error (exit 255) before any search, a refused one to a clap usage error (exit 2)
